@@ -330,7 +330,8 @@ CHECKS["C10"] = {
     "jobs": [{"bin": "c09_inter", "deadline": {"quick": 400, "thorough": 900}}],
     "rule": (_INTER_SPACE + " Restricted to call graphs whose only entry is main (documented limitation of the analyzer). bottom_up_inter_analyzer with "
              "every ordered pair of summary / forward domain from 2 (4) domains wrapped in abstract_domain (so the generic convert_domains path is "
-             "exercised) x 1 (3) fixpoint parameter tuples. Clauses: get_summary(f) = (top, S): every terminating concrete call (inputs, outputs) "
+             "exercised) x 1 (3) fixpoint parameter tuples. Recursive programs with four functions are analysed under ALL 24 orders of the cfg "
+             "vector handed to the call graph (vertex numbers decide the order of out-edges, SCCs and topological traversals). Clauses: get_summary(f) = (top, S): every terminating concrete call (inputs, outputs) "
              "of f from ANY input valuation is in S; every reachable state is in get_pre/get_post of its block."),
     "assumptions": ["as C09"],
     "level_text": "Complete enumeration of the stated program space x domain pairs.",
